@@ -53,6 +53,7 @@ def parent_classes():
     lift_rngs: object = True
     tweak: float = 1.0   # a hashable attribute that changes the computation (stale-trace probe)
     tail_noise: bool = True
+    repeat: int = 1      # how often the lifted child is invoked within one call
 
     def _child(self, cls, name='lifted'):
       return cls(self.inner, name=(name if self.name_mode == 'explicit' else None))
@@ -80,9 +81,12 @@ def parent_classes():
           cls = LIFTED[key]
         else:
           cls = nn.map_variables(NodeC, 'params', lambda v: v, lambda v: v, init=self.is_initializing(), mutable=self.is_mutable_collection('params'))
-        x = self._child(cls)(x) * self.tweak
+        child = self._child(cls)
+        for _ in range(self.repeat):
+          x = child(x) * self.tweak
       elif k == 'jit_method':
-        x = self.region(x) if plain else self.region_jit(x)
+        for _ in range(self.repeat):
+          x = self.region(x) if plain else self.region_jit(x)
       elif k == 'cond':
         def tf(mdl, x):
           return mdl._child(NodeC, 'br')(x) * 2.0
@@ -338,6 +342,14 @@ def run_rng(ctx, i, rng):
       outs = [inst.apply(vp, x, rngs=rngs) for _ in range(3)]
       fresh = [P(kind, inner, d, tail_noise=tail).apply(vp, x, rngs=rngs) for _ in range(3)]
       ctx.check(all(exact(a, b) for a, b in zip(outs, fresh)), 'rng:jit_call_index_dependence', lambda: dict(case=desc))
+      # the same jitted instance invoked several times within ONE apply, the whole apply repeated in the same process
+      # (trace-cache hits must restore every rng counter, including those of child scopes created inside the jitted code)
+      for rep in (2, 3):
+        inst_r = P(kind, inner, d, tail_noise=tail, repeat=rep)
+        outs_r = [inst_r.apply(vp, x, rngs=rngs) for _ in range(3)]
+        fresh_r = P(kind, inner, d, tail_noise=tail, repeat=rep).apply(vp, x, rngs=rngs)
+        ctx.check(exact(outs_r[0], outs_r[1]) and exact(outs_r[1], outs_r[2]) and exact(outs_r[0], fresh_r),
+                  'rng:jit_repeated_invocation_not_reproducible', lambda: dict(case=desc, repeat=rep))
       # different rng seeds give different outputs (draws are really taken)
       rngs2 = dict(rngs, noise=jax.random.key(999))
       ctx.check(not exact(inst.apply(vp, x, rngs=rngs2), outs[0]), 'rng:jit_ignores_rngs', lambda: dict(case=desc))
